@@ -256,8 +256,9 @@ func (c *Client) connect() error {
 			for {
 				val, err := stanza.NextPacket(c.transport.GetDecoder())
 				if err != nil {
+					// No session was established: the caller gets the negotiation error, there is no
+					// disconnection to report (a Disconnected event would start a second reconnection loop)
 					c.ErrorHandler(err)
-					c.disconnected(state)
 					return
 				}
 				switch val.(type) {
